@@ -317,8 +317,16 @@ func RandomScriptC07(rng *rand.Rand) tf.Script {
 	for i := 0; i < n; i++ {
 		x := rng.Intn(100)
 		switch {
-		case x < 43:
+		case x < 41:
 			steps = append(steps, randVote(rng, acct()))
+		case x < 43:
+			// another vault takes a lock at (or just below) the voter's whole power and is deactivated later: a dead lock
+			// above the feeds lock must not hide it
+			a := acct()
+			steps = append(steps, tf.M{"e": "SetLock", "a": a, "k": "k1", "sym": []string{"power", "power-1"}[rng.Intn(2)]})
+			if rng.Intn(2) == 0 {
+				steps = append(steps, tf.M{"e": "Deactivate", "k": "k1"})
+			}
 		case x < 46:
 			// governance changes the feeds parameters between two recomputations
 			mi := 1 + rng.Intn(2)
